@@ -3,7 +3,8 @@
 namespace OP2Utility
 {
 	// CellTypes returned and set by the GameMap class
-	enum class CellType
+	// Note: The underlying type is unsigned so all 32 values fit the 5 bit Tile::cellType field
+	enum class CellType : unsigned int
 	{
 		FastPassible1 = 0,	// Rock vegetation
 		Impassible2,		// Meteor craters, cracks/crevases
